@@ -35,6 +35,8 @@
 
 #include <unistd.h>
 #include <limits.h>
+#include <sys/stat.h>
+#include <sys/types.h>
 
 
 const char * g_etcLdSoPreloadPath;
@@ -266,23 +268,73 @@ char * etcLdSoPreload_readFile ()
 void etcLdSoPreload_writeFile (char * newContent)
 {
     const char * filePath;
+    char         tmpFilePath[PATH_MAX];
+    int          tmpFileFd;
+    struct stat  statBuf;
+    mode_t       fileMode = S_IRUSR | S_IWUSR | S_IRGRP | S_IROTH;
+    size_t       bytesTotal;
+    size_t       bytesWritten = 0;
 
     filePath = etcLdSoPreload_getFilePath();
 
-    FILE * fileHandle = fopen(filePath, "w+");
-    if (fileHandle == NULL) {
+    /*
+     * Never modify the file in place: the dynamic loader reads it on every
+     * program start, and other software's entries live there too. Write the
+     * new content to a temporary file next to it and rename() that over the
+     * original, so at any instant the file holds either the complete old or
+     * the complete new content.
+     */
+    if ((size_t) snprintf(tmpFilePath, PATH_MAX, "%s.XXXXXX", filePath) >= PATH_MAX) {
+        printDiagValue("ld.so.preload path", filePath);
+        fatalError("Path too long.");
+    }
+    if (stat(filePath, &statBuf) == 0) {
+        fileMode = statBuf.st_mode & (S_IRWXU | S_IRWXG | S_IRWXO);
+    }
+    tmpFileFd = mkstemp(tmpFilePath);
+    if (tmpFileFd == -1) {
         printDiagValue("ld.so.preload path", filePath);
         printDiagValue("Error message", strerror(errno));
         fatalError("Unable to open file for writing (missing sudo, maybe?).");
     }
 
-    if (fprintf(fileHandle, "%s", newContent) < 0) {
+    bytesTotal = strlen(newContent);
+    while (bytesWritten < bytesTotal) {
+        ssize_t bytesWrittenNow = write(tmpFileFd, newContent + bytesWritten, bytesTotal - bytesWritten);
+        if (bytesWrittenNow < 0) {
+            if (errno == EINTR) {
+                continue;
+            }
+            break;
+        }
+        bytesWritten += (size_t) bytesWrittenNow;
+    }
+    if (
+        (bytesWritten < bytesTotal)
+        ||
+        (fchmod(tmpFileFd, fileMode) != 0)
+        ||
+        (fsync(tmpFileFd) != 0)
+    ) {
         printDiagValue("ld.so.preload path", filePath);
         printDiagValue("Error message", strerror(errno));
+        close(tmpFileFd);
+        unlink(tmpFilePath);
+        fatalError("Unable to write to file.");
+    }
+    if (close(tmpFileFd) != 0) {
+        printDiagValue("ld.so.preload path", filePath);
+        printDiagValue("Error message", strerror(errno));
+        unlink(tmpFilePath);
         fatalError("Unable to write to file.");
     }
 
-    fclose(fileHandle);
+    if (rename(tmpFilePath, filePath) != 0) {
+        printDiagValue("ld.so.preload path", filePath);
+        printDiagValue("Error message", strerror(errno));
+        unlink(tmpFilePath);
+        fatalError("Unable to replace the file.");
+    }
 }
 
 
